@@ -10,7 +10,12 @@ Lattice explorer on the real code:
   ``lambertInitializationFactory``;
 * ``radarObs2eciPosition`` on real ``Observation`` objects built by the real radar ``Measurement`` at a site lattice x
   topocentric target lattice (round trip) and on explicitly constructed observations against an own FK5 / geodesy
-  model (``verif/oracles/frames_ref.py``);
+  model (``verif/oracles/frames_ref.py``); the same three ways (explicit observation, round trip, and the numbers of
+  the forward model ``getAzimuth`` / ``getElevation`` / ``getRange`` / ``getRangeRate`` themselves) on the threshold
+  lattices of the measurement chain: zenith and nadir distances from exactly 0 over 1e-9 .. 1e-3 rad x 8 bearings x
+  ranges x relative-velocity headings across / against the offset (the forward model takes the azimuth from the
+  velocity "at" the zenith), and offsets of 0, +-1e-12 .. +-1e-3 rad about the four cardinal azimuths (wrap at
+  0 / 2 pi, arctan2 cut at south) and about the horizon;
 * the real ``LambertIOD`` (``fromConfig``, ``getPreviousObservations``, ``checkSinglePass``, ``_determineFinalState``,
   ``determineNewEstimateState``) against a real in-memory ``ResonaateDatabase`` that the harness fills with noise-free
   radar observations (plus decoy rows that each query filter has to reject);
@@ -35,6 +40,12 @@ thorough lattice for seeds 0, 1, 7)
   3.8e-9 a, 2.9e-9 v_c; tolerances 1e-7 v_c, 2e-7 a, 2e-7 v_c (>= 50x).
 * ``radarObs2eciPosition``: see ``_tol_radar`` (relative to the range: the first-order polar-motion matrix is not
   exactly orthonormal; near the poles the site longitude recovered from the site's ECI state is ill-conditioned).
+  Threshold lattices: in addition ``_zen_cond`` = range * 8 eps / max(zd, 4 sqrt(eps)), the resolution of
+  arcsin(z / rho) next to +-pi/2 (measured, seeds 0, 1, 7: error <= 0.07 of the sum on the quick lattice, <= 0.21 on
+  the thorough one, at zd = 1.5e-8 rad); the
+  same allowance on the IOD position (observation next to the zenith is the current one) and, divided by the time of
+  flight and times 4, on the IOD velocity.  Range rate of the forward model: 1e-9 km/s + 1e-9 |v| + |v| * position tolerance / range (measured
+  2.7e-13 km/s quick, 1.2e-10 km/s at 0.5 km range in the thorough lattice).
 * IOD: position 5e-6 km (round trip at ranges <= 5e4 km; measured 7e-11 km).  Velocity: the solver is given
   ``(jd2 - jd1) * 86400`` as time of flight, and a Julian date near 2.46e6 days is a double of resolution
   2^-31 day = 4.0e-5 s, so the difference of two rounded dates is off by up to one step dt_jd.  A time-of-flight error
@@ -68,11 +79,19 @@ RULE = (
     "than 5 deg away from 0/180/360 is solved by lambertUniversal and lambertBattin (lambertGauss on arcs <= 30 deg) "
     "with the true transfer sense and compared with the own Kepler reference (end velocities, and arrival of the "
     "propagated returned velocity); radar: every (date, site, az, el, range) of the lattice through the real radar "
-    "Measurement and radarObs2eciPosition (round trip) and through an own FK5/geodesy model; IOD: every (orbit, site, "
-    "separation, solver, database variant) through the real LambertIOD on a real in-memory database; MMAE: every "
+    "Measurement and radarObs2eciPosition (round trip) and through an own FK5/geodesy model; thresholds of the "
+    "measurement chain: every (sensor [ground sites, 3 space-based], hemisphere [zenith; nadir for space-based], range, "
+    "zenith distance in {0, 1e-9 .. 1e-3 rad}, 8 bearings, relative-velocity heading across/against the offset, "
+    "approaching/receding) and every (site, range, cardinal azimuth + offset in {0, +-1e-12 .. +-1e-3 rad}, elevation in "
+    "{horizon + the same offsets, 30, 89, -20 deg}) as explicit observation, as round trip through the real forward "
+    "model, and as forward-model values (range, range-rate sign, elevation, azimuth domain and bearing); IOD: every "
+    "(orbit, site, separation, solver, database variant) through the real LambertIOD on a real in-memory database, and "
+    "every (range/separation class, site, zenith distance, 8 bearings relative to the Earth-relative heading, which of "
+    "the two observations is the near-zenith one) on circular truth orbits through the near-zenith point; MMAE: every "
     "(orbit, solver, gap) through AdaptiveFilter._calculateDeltaV/_generateHypothesisManeuvers. non-trivial = transfer "
     "angle > 180 deg or e >= 0.4 (arcs), separation >= 30 % of the period or a database variant with a decoy row "
-    "(IOD), elevation/azimuth on a lattice edge or a space-based site (radar), a hypothesis whose transfer exceeds "
+    "(IOD) or a zenith distance < 1e-3 rad, elevation/azimuth on a lattice edge or a space-based site (radar), zenith "
+    "distance < 1e-3 rad or a seam offset <= 1e-6 rad (thresholds), a hypothesis whose transfer exceeds "
     "half a revolution or a radar/optical mix (MMAE); helper cases are non-trivial at a branch threshold. Distinct by "
     "construction (lattice points); VERIF_SEED rotates RAAN / argument of perigee / start anomaly, the start day and "
     "the site longitudes."
@@ -167,6 +186,44 @@ RNG_Q = [300.0, 2500.0, 40000.0]
 RNG_T = [0.5, 300.0, 1000.0, 2500.0, 10000.0, 40000.0, 90000.0]
 
 
+# Threshold lattices of the measurement chain (forward model getAzimuth / getElevation / getRange / getRangeRate and
+# its inverse).  The forward model switches the azimuth formula "at" elevation pi/2 (then the azimuth is the heading of
+# the relative velocity), wraps the azimuth at 0 / 2 pi, and arctan2 has its cut at due south; none of these lies on
+# a lattice of whole degrees.  Zenith (nadir) distances in radians: exactly 0, below the resolution of
+# arcsin(z / rho) (sqrt(2 eps) = 2.1e-8 rad), and from there up to ordinary geometry - in particular both sides of
+# every tolerance a "float equality" helper might carry (1e-15 .. 1e-5 relative, 1e-8 absolute).
+EPS = 2.0 ** -52
+ZD_Q = [0.0, 1e-9, 1e-7, 1e-6, 5e-6, 1e-5, 2e-5, 1e-4, 1e-3]
+ZD_T = [0.0, 1e-12, 1e-9, 1.5e-8, 3e-8, 1e-7, 3e-7, 1e-6, 3e-6, 5e-6, 1e-5, 1.5e-5, 1.6e-5, 2e-5, 5e-5, 1e-4, 1e-3, 1e-2]
+N_BEARINGS = 8
+RNG_Z_Q = [300.0, 800.0, 2500.0, 40000.0]
+RNG_Z_T = [0.5, 300.0, 800.0, 2500.0, 10000.0, 40000.0, 90000.0]
+HEAD_Q = [90.0, 180.0]  # heading of the relative velocity minus bearing of the horizontal offset (deg): across, back
+HEAD_T = [90.0, 180.0, -90.0, 45.0, 0.0]
+SEAM_OFF = [0.0, 1e-12, -1e-12, 1e-9, -1e-9, 1e-6, -1e-6, 1e-3, -1e-3]  # rad, about each cardinal azimuth / the horizon
+SEAM_EL_DEG = [30.0, 89.0, -20.0]
+RNG_SEAM = [300.0, 40000.0]
+# IOD arcs with one observation next to the zenith: (slant range at the near-zenith observation km, separation of the
+# two observations in percent of the period)
+IOD_ZEN_GEOM = [(500.0, 5), (1200.0, 20), (35800.0, 10)]
+
+
+def _bearings(seed):
+    return [45.0 * (k + _phase(seed, 6)) for k in range(N_BEARINGS)]
+
+
+def _zen_cond(rng, zd):
+    """km.  Conditioning of the forward model next to the zenith / nadir: the elevation is arcsin(s), s = z / |rho| =
+    cos(zd) = 1 - zd^2/2.  s carries the rounding of the norm and of the division (<= 2 eps; it is quantised in steps
+    of eps/2 below 1), and d(zd) = ds / zd, so the reported elevation is off by <= 2 eps / zd; below
+    zd ~ sqrt(2 eps) = 2.1e-8 s is one of 1, 1 - eps/2, 1 - eps and the elevation one of pi/2 - {0, 1.5e-8, 2.1e-8}
+    whatever zd is.  Bound used: 8 eps / max(zd, 4 sqrt(eps)) rad (>= 4x resp. 2x the above; 3e-8 rad at most), times
+    the range.  A wrong azimuth next to the zenith displaces the target by range * zd * 2 sin(dpsi / 2): for the
+    across-track cases of the lattice (dpsi = 90 deg) that is 1.4 * zd * range = 8x this bound at zd = 1e-7, 800x at
+    1e-6, 2e4 x at 5e-6."""
+    return rng * 8.0 * EPS / max(zd, 4.0 * math.sqrt(EPS))
+
+
 def _sites(tier, seed):
     base = SITES_Q if tier == "quick" else SITES_T
     shift = 360.0 * _phase(seed, 3)
@@ -212,6 +269,15 @@ def items(tier, seed):
         for si in range(len(sites)):
             out.append(("radar", tier, seed, k, si))
         out.append(("radar_space", tier, seed, k))
+    for k in range(1 if tier == "quick" else 2):
+        for si in range(len(sites)):
+            out.append(("radar_zenith", tier, seed, k, si))
+            out.append(("radar_seam", tier, seed, k, si))
+        for oi in range(3):
+            out.append(("radar_zenith_space", tier, seed, k, oi))
+    for gi in range(len(IOD_ZEN_GEOM)):
+        for si in range(len(sites)):
+            out.append(("iod_zenith", tier, seed, gi, si))
     orbits = IOD_ORBITS_Q if tier == "quick" else IOD_ORBITS_T
     for oi in range(len(orbits)):
         for si in range(len(sites)):
@@ -235,6 +301,28 @@ def bounds(tier, seed):
         "iod_orbits": IOD_ORBITS_Q if tier == "quick" else IOD_ORBITS_T,
         "iod_separations_percent": IOD_SEPS_Q if tier == "quick" else IOD_SEPS_T,
         "iod_variants": IOD_VARIANTS,
+        "near_zenith": {
+            "zenith_distance_rad": ZD_Q if tier == "quick" else ZD_T,
+            "bearings_deg": _bearings(seed),
+            "range": RNG_Z_Q if tier == "quick" else RNG_Z_T,
+            "relative_velocity_heading_minus_bearing_deg": HEAD_Q if tier == "quick" else HEAD_T,
+            "vertical_relative_velocity_km_s": [0.25, -0.25],
+            "sensors": "every ground site (zenith) + 3 space-based sensors (zenith and nadir)",
+            "conditioning_allowance": "range * 8 eps / max(zd, 4 sqrt(eps))",
+        },
+        "seams": {
+            "azimuth_rad": "each of 0, pi/2, pi, 3pi/2 + offsets",
+            "offsets_rad": SEAM_OFF,
+            "elevation": {"about_horizon_rad": SEAM_OFF, "deg": SEAM_EL_DEG},
+            "range": RNG_SEAM,
+        },
+        "iod_near_zenith": {
+            "range_km_and_separation_percent": IOD_ZEN_GEOM,
+            "zenith_distance_rad": ZD_Q if tier == "quick" else ZD_T,
+            "bearing_minus_relative_heading_deg": [45.0 * k for k in range(N_BEARINGS)],
+            "which_observation_near_zenith": ["second (current)", "first (stored)"],
+            "solvers": "universal / battin alternating over the bearings (quick), both (thorough)",
+        },
         "tolerances": TOL,
     }
 
@@ -503,6 +591,159 @@ def _run_radar_space(res, item):
                     _radar_case(res, "radar_space", t, sensor_eci, ["space", a, inc, nu], az, el, rng, fk5, lat, lon, True, item)
 
 
+# ------------------------------------------------------------------------------------------------ radar: thresholds
+def _radar_point(res, sub, t, sensor_eci, site_desc, fk5, lat, lon, geom, case_extra, nontrivial, item):
+    """One target given in the own model by its SEZ offset (unit line of sight built from the zenith distance and
+    bearing directly, no cos(pi/2 - x)) and its SEZ velocity relative to the sensor, pushed through
+
+    * (reference)  an explicit Observation(az, el, range) -> radarObs2eciPosition against the own geometry,
+    * (roundtrip)  the real forward model (Observation.fromMeasurement -> Measurement -> Azimuth / Elevation / Range /
+      RangeRate -> getSlantRangeVector / getAzimuth / ...) and back through radarObs2eciPosition, against the true
+      position,
+    * (forward)    the forward model's numbers themselves: range, range rate (sign!), elevation, azimuth in [0, 2 pi]
+      and - weighted with cos(el), which is what it is worth in position - equal to the bearing.
+
+    ``geom`` = dict(az, el [rad, the explicit observation], rng, zd [distance from the zenith or nadir, rad],
+    los [unit SEZ vector], vel [SEZ relative velocity km/s])."""
+    from resonaate.data.observation import Observation  # noqa: PLC0415
+    from resonaate.physics.time.stardate import datetimeToJulianDate  # noqa: PLC0415
+    from resonaate.physics.transforms.methods import radarObs2eciPosition  # noqa: PLC0415
+
+    jd = datetimeToJulianDate(t)
+    sensor_eci = np.asarray(sensor_eci, dtype=float)
+    az, el, rng, zd = geom["az"], geom["el"], geom["rng"], geom["zd"]
+    sez_pos = [rng * c for c in geom["los"]]
+    rel_pos = np.asarray(fr.sez_to_ecef(sez_pos, lat, lon))
+    rel_vel = np.asarray(fr.sez_to_ecef(geom["vel"], lat, lon))
+    tgt = sensor_eci[:3] + fk5.ecef2eci_mat @ rel_pos
+    sen_ecef = fk5.eci_to_ecef(sensor_eci)
+    tgt_vel = fk5.ecef_to_eci(sen_ecef + np.concatenate([rel_pos, rel_vel]))[3:]
+    case = {"t": t.isoformat(), "site": site_desc, "az": az, "el": el, "range": rng, **case_extra}
+    # (a) explicit observation: nothing is ill-conditioned here (az, el are given), the tolerance is the ordinary one
+    obs = Observation(jd, 10001, 20001, "adv_radar", sensor_eci, _radar_measurement(),
+                      azimuth_rad=az, elevation_rad=el, range_km=rng, range_rate_km_p_sec=0.0)
+    got = np.asarray(radarObs2eciPosition(obs), dtype=float)
+    err = _maxabs(got, tgt) if got.shape == (3,) else float("inf")
+    res.case(f"{sub}/reference", case, err <= _tol_radar(rng, lat, True), nontrivial=nontrivial,
+             signature=f"C20/{sub}/reference", observed={"pos": got, "err_km": err}, expected=tgt, item=item)
+    # (b) round trip through the real forward model; tolerance = ordinary + conditioning of arcsin next to +-pi/2
+    obs = Observation.fromMeasurement(jd, 10001, np.concatenate([tgt, tgt_vel]), 20001, sensor_eci, "adv_radar",
+                                      _radar_measurement(), noisy=False)
+    back = np.asarray(radarObs2eciPosition(obs), dtype=float)
+    err = _maxabs(back, tgt)
+    tol = _tol_radar(rng, lat, False) + _zen_cond(rng, zd)
+    res.case(f"{sub}/roundtrip", case, err <= tol, nontrivial=nontrivial, signature=f"C20/{sub}/roundtrip",
+             observed={"pos": back, "err_km": err, "err_over_tol": err / tol, "az": obs.azimuth_rad, "el": obs.elevation_rad,
+                       "range": obs.range_km},
+             expected={"pos": tgt, "tol_km": tol}, item=item)
+    # (c) the numbers of the forward model against the construction (own frames: tolerance of the 'reference' kind).
+    # Range rate: own value los . v_rel; the two reductions differ by <= ~1e-11 rad in orientation and 1e-12 in the
+    # omega x r term (<= 3 km/s), the line of sight by the position tolerance / range: 1e-9 km/s + 1e-9 |v_rel| is
+    # >= 10x that and 8 orders below a sign error.
+    f_az, f_el, f_rng, f_rr = (float(obs.azimuth_rad), float(obs.elevation_rad), float(obs.range_km), float(obs.range_rate_km_p_sec))
+    ptol = _tol_radar(rng, lat, True) + _zen_cond(rng, zd)
+    speed = math.sqrt(sum(c * c for c in geom["vel"]))
+    rr_exp = sum(a * b for a, b in zip(geom["los"], geom["vel"]))
+    bad = None
+    if not all(math.isfinite(x) for x in (f_az, f_el, f_rng, f_rr)):
+        bad = "non_finite"
+    elif abs(f_rng - rng) > ptol:
+        bad = "range"
+    elif abs(f_rr - rr_exp) > 1e-9 + 1e-9 * speed + speed * ptol / rng:
+        bad = "range_rate"
+    elif abs(f_el - el) * rng > ptol:
+        bad = "elevation"
+    elif not 0.0 <= f_az <= 2.0 * math.pi:
+        bad = "azimuth_domain"
+    elif abs(fr.angle_diff(f_az, az)) * math.sin(zd) * rng > ptol:
+        bad = "azimuth"
+    if bad is None and f_az == 2.0 * math.pi:
+        res.either_way += 1  # documented [0, 2 pi): a bearing a rounding error west of north is wrapped onto 2 pi itself
+    res.case(f"{sub}/forward", case, bad is None, nontrivial=nontrivial, signature=f"C20/{sub}/forward/{bad or 'ok'}",
+             observed={"az": f_az, "el": f_el, "range": f_rng, "range_rate": f_rr},
+             expected={"az": az, "el": el, "range": rng, "range_rate": rr_exp, "pos_tol_km": ptol}, item=item)
+    res.observe(got, back, f_az, f_el, f_rng, f_rr)
+
+
+def _zenith_geom(rng, zd, bearing_deg, head_rel_deg, vz, speed, nadir=False):
+    """Line of sight ``zd`` rad away from the zenith (nadir) towards ``bearing`` (azimuth convention: clockwise from
+    north; SEZ axes south, east, up); relative velocity horizontal at heading bearing + head_rel plus a vertical part."""
+    b = bearing_deg * DEG
+    h = (bearing_deg + head_rel_deg) * DEG
+    up = -1.0 if nadir else 1.0
+    los = [-math.sin(zd) * math.cos(b), math.sin(zd) * math.sin(b), up * math.cos(zd)]
+    vel = [-speed * math.cos(h), speed * math.sin(h), vz]
+    return {"az": b % (2.0 * math.pi), "el": up * (math.pi / 2 - zd), "rng": rng, "zd": zd, "los": los, "vel": vel}
+
+
+def _zenith_lattice(res, sub, tier, seed, t, sensor_eci, site_desc, fk5, lat, lon, item, nadir):
+    zds, rngs, heads = (ZD_Q, RNG_Z_Q, HEAD_Q) if tier == "quick" else (ZD_T, RNG_Z_T, HEAD_T)
+    for ri, rng in enumerate(rngs):
+        speed = 7.0 if rng < 5000.0 else 0.5  # relative to the rotating Earth: LEO pass / inclined GEO figure of eight
+        for zi, zd in enumerate(zds):
+            for bi, bearing in enumerate(_bearings(seed)):
+                for hi, head in enumerate(heads):
+                    vz = 0.25 if (ri + zi + bi + hi) % 2 else -0.25  # receding / approaching: range-rate sign
+                    geom = _zenith_geom(rng, zd, bearing, head, vz, speed, nadir)
+                    extra = {"zenith_distance": zd, "bearing_deg": bearing, "heading_minus_bearing_deg": head,
+                             "hemisphere": "nadir" if nadir else "zenith"}
+                    _radar_point(res, sub, t, sensor_eci, site_desc, fk5, lat, lon, geom, extra, zd < 1e-3, item)
+
+
+def _run_radar_zenith(res, item):
+    _, tier, seed, k, si = item
+    la, lo, al = _sites(tier, seed)[si]
+    t = _radar_dates(tier, seed, k + 2)
+    fk5 = fr.FK5.from_table(t)
+    lat, lon = la * DEG, lo * DEG
+    sensor_eci = fk5.ecef_to_eci(list(fr.geodetic_to_ecef(lat, lon, al)) + [0.0, 0.0, 0.0])
+    _zenith_lattice(res, "radar_zenith", tier, seed, t, sensor_eci, [la, lo, al], fk5, lat, lon, item, False)
+
+
+def _run_radar_zenith_space(res, item):
+    _, tier, seed, k, oi = item
+    t = _radar_dates(tier, seed, k + 2)
+    fk5 = fr.FK5.from_table(t)
+    a, e, inc, nu = [(7000.0, 0.001, 0.9, 0.5), (26560.0, 0.01, 1.1, 4.0), (42164.0, 0.0, 0.0, 2.0)][oi]
+    r, v = ref.elements_to_state(a, e, inc, 0.3 + 6.28 * _phase(seed, 4), 1.0, nu)
+    sensor_eci = np.array(r + v)
+    lat, lon, _alt = fr.ecef_to_geodetic_iter(*fk5.eci_to_ecef(sensor_eci)[:3])
+    for nadir in (False, True):
+        _zenith_lattice(res, "radar_zenith_space", tier, seed, t, sensor_eci, ["space", a, inc, nu], fk5, lat, lon, item, nadir)
+
+
+def _run_radar_seam(res, item):
+    """Azimuth wrap (due north: 0 / 2 pi), the arctan2 cut (due south) and the quadrant boundaries (east, west), and the
+    sign change of the elevation at the horizon: offsets down to 1e-12 rad on both sides."""
+    _, tier, seed, k, si = item
+    la, lo, al = _sites(tier, seed)[si]
+    t = _radar_dates(tier, seed, k + 2)
+    fk5 = fr.FK5.from_table(t)
+    lat, lon = la * DEG, lo * DEG
+    sensor_eci = fk5.ecef_to_eci(list(fr.geodetic_to_ecef(lat, lon, al)) + [0.0, 0.0, 0.0])
+    els = [(f"horizon{off:+.0e}", off) for off in SEAM_OFF] + [(f"{d:g}deg", d * DEG) for d in SEAM_EL_DEG]
+    n = 0
+    for rng in RNG_SEAM:
+        for ci in range(4):
+            for off in SEAM_OFF:
+                for el_name, el in els:
+                    n += 1
+                    az = (ci * math.pi / 2 + off) % (2.0 * math.pi)
+                    # line of sight from the cardinal direction and the offset (exact zeros on the seam itself)
+                    cb, sb = [(1.0, 0.0), (0.0, 1.0), (-1.0, 0.0), (0.0, -1.0)][ci]
+                    co, so = math.cos(off), math.sin(off)
+                    cn, sn = cb * co - sb * so, sb * co + cb * so  # cos / sin of the bearing
+                    los = [-math.cos(el) * cn, math.cos(el) * sn, math.sin(el)]
+                    vel = [3.0, -5.0, 0.25 if n % 2 else -0.25]
+                    geom = {"az": az, "el": el, "rng": rng, "zd": math.pi / 2 - abs(el), "los": los, "vel": vel}
+                    extra = {"cardinal": ["north", "east", "south", "west"][ci], "az_offset": off, "el_name": el_name}
+                    _radar_point(res, "radar_seam", t, sensor_eci, [la, lo, al], fk5, lat, lon, geom, extra,
+                                 abs(off) <= 1e-6 or abs(el) <= 1e-6, item)
+                    if ci == 0 and off == 0.0:  # due north reported as 2 pi (the closed end of the stored domain)
+                        _radar_point(res, "radar_seam", t, sensor_eci, [la, lo, al], fk5, lat, lon, {**geom, "az": 2.0 * math.pi},
+                                     {**extra, "cardinal": "north_as_2pi"}, True, item)
+
+
 # ------------------------------------------------------------------------------------------------ IOD
 TGT, TGT2, SEN, SEN2 = 10001, 10002, 20001, 20002
 
@@ -525,6 +766,13 @@ class _World:
         self.r0b, self.v0b = ref.elements_to_state(1.3 * a, 0.05, inc + 0.4, 2.0, 0.2, 1.0)
         self.site = site
         self.db = getDBConnection()
+
+    def set_state(self, t, r, v):
+        """Make the truth orbit the one that has position r and velocity v (ECI) at scenario time t."""
+        r, v = tuple(float(x) for x in r), tuple(float(x) for x in v)
+        self.r0, self.v0 = ref.propagate(r, v, -float(t))
+        self.a = 1.0 / (2.0 / math.sqrt(sum(x * x for x in r)) - sum(x * x for x in v) / MU)
+        self.period = ref.period(self.a)
 
     def truth(self, t, which=TGT):
         r, v = ref.propagate(self.r0, self.v0, t) if which == TGT else ref.propagate(self.r0b, self.v0b, t)
@@ -599,8 +847,11 @@ def _iod_vel_tol(world, solver, tof):
     return 8.0 * vsc * JD_STEP_S / tof + TOL[solver][0] * vsc + 1e-9
 
 
-def _judge_state(res, sub, world, solver, sol, err, t1, t2, case, nontrivial, item, sig_tail):
-    """The IOD must converge to the true state at t2 (position from the current radar observation, velocity from Lambert)."""
+def _judge_state(res, sub, world, solver, sol, err, t1, t2, case, nontrivial, item, sig_tail, pos_extra=0.0, end_extra=0.0):
+    """The IOD must converge to the true state at t2 (position from the current radar observation, velocity from Lambert).
+
+    ``pos_extra`` / ``end_extra`` (km, default 0): stated conditioning allowance of the position recovered from the
+    current observation / of the worse of the two arc end points (near-zenith cases only, see ``_zen_cond``)."""
     truth = world.truth(t2)
     sep = (t2 - t1) / world.period
     if err is not None or sol is None or not sol.convergence or sol.state_vector is None:
@@ -620,12 +871,14 @@ def _judge_state(res, sub, world, solver, sol, err, t1, t2, case, nontrivial, it
     sv = np.asarray(sol.state_vector, dtype=float)
     ep = _maxabs(sv[:3], truth[:3]) if sv.shape == (6,) else float("inf")
     ev = _maxabs(sv[3:], truth[3:]) if sv.shape == (6,) else float("inf")
-    vtol = _iod_vel_tol(world, solver, t2 - t1)
-    ok = ep <= TOL_IOD_POS_KM and ev <= vtol and sol.message == "IOD successful"
+    # an end point displaced by d moves the Lambert end velocities by about d / tof (short arcs) .. 2 d / tof: 4 d / tof
+    vtol = _iod_vel_tol(world, solver, t2 - t1) + 4.0 * end_extra / (t2 - t1)
+    ptol = TOL_IOD_POS_KM + pos_extra
+    ok = ep <= ptol and ev <= vtol and sol.message == "IOD successful"
     res.case(sub, case, ok, nontrivial=nontrivial,
-             signature=f"C20/iod/{sig_tail}/" + ("position" if ep > TOL_IOD_POS_KM else "velocity" if ev > vtol else "message"),
+             signature=f"C20/iod/{sig_tail}/" + ("position" if ep > ptol else "velocity" if ev > vtol else "message"),
              observed={"state": sv, "pos_err_km": ep, "vel_err_km_s": ev, "vel_err_over_tol": ev / vtol, "message": sol.message},
-             expected={"state": truth, "pos_tol": TOL_IOD_POS_KM, "vel_tol": vtol}, outcome="converged", item=item)
+             expected={"state": truth, "pos_tol": ptol, "vel_tol": vtol}, outcome="converged", item=item)
     res.observe(sv)
 
 
@@ -708,6 +961,61 @@ def _run_iod(res, item):
         res.case("iod/rejections", {"orbit": list(orbit), "site": list(site), "variant": f"{revs}_revolutions"}, ok,
                  nontrivial=True, signature="C20/iod/rejections/multi_rev", observed=err or [sol.convergence, sol.message],
                  expected=[False, "Observations not from a single pass"], outcome="multi_rev", item=item)
+
+
+def _run_iod_zenith(res, item):
+    """IOD arcs one of whose two observations is taken with the target within arc seconds of the sensor's zenith (an
+    overhead pass at closest approach; a geostationary satellite over its own sub-satellite site).  The truth orbit is
+    circular through a point ``zd`` rad off the zenith at slant range ``rng``; its inertial heading changes with the
+    bearing index (8 orbit planes), and the bearing of the offset is laid out relative to the heading of the target's
+    velocity *relative to the rotating Earth* (the velocity the SEZ slant-range vector carries): 0 = moving along the
+    offset, 90 / 270 = across (closest approach), 180 = back over the zenith."""
+    _, tier, seed, gi, si = item
+    rng, sep = IOD_ZEN_GEOM[gi]
+    site = _sites(tier, seed)[si]
+    start = _seed_start(seed, 50 + gi + 3 * si)
+    w = _World(start, (6378.0 + site[2] + rng, 0.0, 0.5), site, seed + 7 * gi)
+    step = 60 if w.period < 30000 else 300
+    t1 = (14 + round(0.7 * w.period / step)) * step
+    t2 = t1 + max(step, round(sep / 100.0 * w.period / step) * step)
+    t_det = t1 - 4 * step
+    zds = ZD_Q if tier == "quick" else ZD_T
+    for which, t_z in (("second", t2), ("first", t1)):
+        sen = w.sensor_eci(t_z)
+        fk5 = fr.FK5.from_table(start + timedelta(seconds=t_z))
+        sen_ecef = fk5.eci_to_ecef(sen)
+        lat, lon, _alt = fr.ecef_to_geodetic_iter(*sen_ecef[:3])
+        to_eci = fk5.ecef2eci_mat
+        north = to_eci @ np.asarray(fr.sez_to_ecef([-1.0, 0.0, 0.0], lat, lon))
+        east = to_eci @ np.asarray(fr.sez_to_ecef([0.0, 1.0, 0.0], lat, lon))
+
+        def place(los):
+            return sen[:3] + to_eci @ (rng * np.asarray(fr.sez_to_ecef(los, lat, lon)))
+
+        def circular_velocity(r, heading):
+            d = math.cos(heading) * north + math.sin(heading) * east
+            rhat = r / np.linalg.norm(r)
+            d = d - float(d @ rhat) * rhat
+            return math.sqrt(MU / float(np.linalg.norm(r))) * d / np.linalg.norm(d)
+
+        for k in range(N_BEARINGS):
+            inertial_heading = (25.0 + 40.0 * k + 360.0 * _phase(seed, 8)) * DEG
+            r_z = place([0.0, 0.0, 1.0])
+            rel_v = fk5.eci_to_ecef(np.concatenate([r_z, circular_velocity(r_z, inertial_heading)]))[3:] - sen_ecef[3:]
+            v_s, v_e, _v_z = fr.ecef_to_sez(list(rel_v), lat, lon)
+            bearing = math.atan2(v_e, -v_s) + 45.0 * k * DEG
+            for zd in zds:
+                los = [-math.sin(zd) * math.cos(bearing), math.sin(zd) * math.sin(bearing), math.cos(zd)]
+                r = place(los)
+                w.set_state(t_z, r, circular_velocity(r, inertial_heading))
+                for solver in ("universal", "battin") if tier == "thorough" else (("universal", "battin")[k % 2],):
+                    case = {"range_at_zenith": rng, "sep_percent": sep, "site": list(site), "zenith_distance": zd,
+                            "bearing_minus_heading_deg": 45.0 * k, "which": which, "solver": solver, "start": start.isoformat()}
+                    w.reset([w.row(t1)])
+                    sol, err = _iod_call(_iod(w, solver), [w.obs(t2)], t_det, t2)
+                    cond = _zen_cond(rng, zd)
+                    _judge_state(res, "iod/zenith", w, solver, sol, err, t1, t2, case, zd < 1e-3, item, f"zenith_{which}",
+                                 pos_extra=cond if which == "second" else 0.0, end_extra=cond)
 
 
 def _run_iod_api(res, item):
@@ -941,7 +1249,8 @@ def run_item(item):
     kind = item[0]
     runner = {
         "arcs": _run_arcs, "helpers": _run_helpers, "direction": _run_direction, "radar": _run_radar,
-        "radar_space": _run_radar_space, "iod": _run_iod, "iod_api": _run_iod_api, "mmae": _run_mmae,
+        "radar_space": _run_radar_space, "radar_zenith": _run_radar_zenith, "radar_zenith_space": _run_radar_zenith_space,
+        "radar_seam": _run_radar_seam, "iod_zenith": _run_iod_zenith, "iod": _run_iod, "iod_api": _run_iod_api, "mmae": _run_mmae,
     }[kind]
     try:
         runner(res, item)
